@@ -64,7 +64,7 @@ def anc(m: str) -> list:
     return out
 
 
-def binding_lines(kind: str, st: dict, n: str, own_path: str, guarded: bool, tag: str) -> list:
+def binding_lines(kind: str, st: dict, n: str, own_path: str, guarded: bool, tag: str, pre: dict | None = None) -> list:
     """Source lines (unindented) that realise binding kind `kind` of name n in the scope whose dotted path is own_path."""
     if kind in ("none", "skel", "iattr"):
         return []
@@ -77,6 +77,8 @@ def binding_lines(kind: str, st: dict, n: str, own_path: str, guarded: bool, tag
     if kind == "annonly":
         return [f"{n}: int"]
     text = stmt_text(st)
+    if pre and pre["stmt"] != NIL:       # Scope.tla PreStmtOf: an earlier statement binding the same name, rebound by `st`
+        return [stmt_text(pre), text]
     if guarded:
         return ["try:", "    " + text, "except ImportError:", f'    _R.append("{tag}")']
     return [text]
@@ -143,6 +145,7 @@ def render(env: dict) -> dict:
     suf = env["suffix"]
     rks = env.get("rks", [])
     stm = env["stm"]
+    pre = env.get("pre") or {}
     files = {"zrt.py": ZRT}
     # library modules (everything but the site module); ancestors of M may bind n
     ancs = anc(m)
@@ -184,9 +187,9 @@ def render(env: dict) -> dict:
     else:
         z_body = binding_lines({"none": "none", "l_dclass": "dclass", "l_dfunc": "dfunc", "l_dattr": "dattr"}[inh], None, n, mp + ".Z", False, "Z")
         lines += ["class Z:"] + ind(z_body or ["pass"], 1)
-    lines += binding_lines(env["modb"], stm["M"], n, mp, guarded, "mod")
-    a_body = binding_lines(env["ab"], stm["A"], n, mp + ".A", guarded, "A")
-    b_body = binding_lines(env["bb"], stm["B"], n, mp + ".A.B", guarded, "B")
+    lines += binding_lines(env["modb"], stm["M"], n, mp, guarded, "mod", pre.get("M"))
+    a_body = binding_lines(env["ab"], stm["A"], n, mp + ".A", guarded, "A", pre.get("A"))
+    b_body = binding_lines(env["bb"], stm["B"], n, mp + ".A.B", guarded, "B", pre.get("B"))
     b_body += method_block("B", mp + ".A.B", env["bb"])
     b_body += probe_lines("B", n, suf.get("B", []), rks)
     b_body += class_sites(n, suf.get("B", []), rks)
